@@ -27,6 +27,7 @@ def load_j1939():
         where = os.path.realpath(os.path.dirname(j1939.__file__))
         if not where.startswith(os.path.realpath(REPO)):
             raise engine.HarnessError('j1939 imported from %s, not from %s' % (where, REPO))
+        engine.fixup_modules('j1939')
         # the DLL classes print() on some paths; keep worker stdout clean
         _j1939 = j1939
     return _j1939
